@@ -24,7 +24,7 @@ def correspond(rep, tier, seed):
 def search(rep, tier, seed, reason=""):
     from props.parts import sendflow
     for k in range(4 if tier == "quick" else 12):
-        for prof in ("queue", "limits", "reset"):
+        for prof in ("queue", "limits", "pushlimit", "reset"):
             scs, _ = sendflow.gen_scenarios(seed * 7907 + k * 13 + len(prof), 150, 140, prof, snap=True)
             before = len(rep.violations)
             if counts.oracle_counts(rep, scs) > 0 and len(rep.violations) > before:
